@@ -378,6 +378,10 @@ func (c *Config) validateMetrics() error {
 		if c.Metrics.Path == "" {
 			return fmt.Errorf("metrics path is required when enabled")
 		}
+		// The metrics server registers its health endpoint under this path
+		if c.Metrics.Path == "/health" {
+			return fmt.Errorf("metrics path /health is reserved for the health endpoint")
+		}
 	}
 	return nil
 }
